@@ -121,6 +121,8 @@ type built struct {
 	ts       scte35.TimeSignalCommand
 	ins      scte35.SpliceInsertCommand
 	descs    []scte35.SegmentationDescriptor
+	compH    map[int][]scte35.ComponentOffset // handles from Components(), kept across encodings
+	midH     map[int][]scte35.UPID            // handles from MID(), kept across encodings
 	last     []byte
 	hist     []string
 	dead     bool
@@ -407,6 +409,7 @@ func (b *built) commandOp() {
 func (b *built) setDescriptors(n int) {
 	b.descs = nil
 	b.m.Descs = nil
+	b.compH, b.midH = map[int][]scte35.ComponentOffset{}, map[int][]scte35.UPID{}
 	for i := 0; i < n; i++ {
 		b.descs = append(b.descs, scte35.CreateSegmentationDescriptor())
 		b.m.Descs = append(b.m.Descs, ref.SegDesc{})
@@ -435,7 +438,49 @@ func (b *built) descOp() {
 	bad := func(name string) {
 		b.fail("getter:descriptor-"+name, p+name+" getter does not report the value set", nil, nil)
 	}
-	switch r.Intn(20) {
+	if hs := b.compH[i]; len(hs) > 0 && len(hs) == len(m.Comps) && r.Chance(4) {
+		// edit a component through a handle obtained earlier (possibly before the last encoding)
+		j := r.Intn(len(hs))
+		if r.Bool() {
+			v := b.val(33)
+			b.log(p+"Components()[%d] (handle kept from earlier).SetPTSOffset(%d)", j, v)
+			hs[j].SetPTSOffset(gots.PTS(v))
+			m.Comps[j].Off = v & m33
+		} else {
+			v := r.Byte()
+			b.log(p+"Components()[%d] (handle kept from earlier).SetComponentTag(%d)", j, v)
+			hs[j].SetComponentTag(v)
+			m.Comps[j].Tag = v
+		}
+		if uint64(hs[j].PTSOffset()) != m.Comps[j].Off || hs[j].ComponentTag() != m.Comps[j].Tag {
+			bad("component-handle")
+		}
+		b.kinds["component-handle"] = true
+		b.c.Count("handle.component_edit")
+		return
+	}
+	if hs := b.midH[i]; len(hs) > 0 && m.UPIDType == 0x0d && len(hs) == len(m.MID) && r.Chance(3) {
+		j := r.Intn(len(hs))
+		if r.Bool() {
+			v := r.Bytes(r.Intn(14))
+			b.log(p+"MID()[%d] (handle kept from earlier).SetUPID(%x)", j, v)
+			hs[j].SetUPID(v)
+			m.MID[j].Data = append([]byte{}, v...)
+		} else {
+			v := byte(1 + r.Intn(12))
+			b.log(p+"MID()[%d] (handle kept from earlier).SetUPIDType(%d)", j, v)
+			hs[j].SetUPIDType(scte35.SegUPIDType(v))
+			m.MID[j].Type = v
+		}
+		b.kinds["mid-handle"] = true
+		b.c.Count("handle.mid_edit")
+		return
+	}
+	k := r.Intn(20)
+	if m.UPIDType == 0x0d && len(b.midH[i]) == 0 && r.Chance(2) {
+		k = 7 // give the MID a list
+	}
+	switch k {
 	case 0:
 		v := r.Uint32()
 		b.log(p+"SetEventID(%#x)", v)
@@ -481,7 +526,7 @@ func (b *built) descOp() {
 			bad("duration")
 		}
 	case 5:
-		v := r.PickByte([]byte{0, 1, 2, 3, 8, 9, 0x0c, 0x0d, 0x0d, 0x0e, 0x0f})
+		v := r.PickByte([]byte{0, 1, 2, 3, 8, 9, 0x0c, 0x0d, 0x0d, 0x0d, 0x0d, 0x0d, 0x0e, 0x0f})
 		b.log(p+"SetUPIDType(%#x)", v)
 		d.SetUPIDType(scte35.SegUPIDType(v))
 		m.UPIDType = v
@@ -495,6 +540,9 @@ func (b *built) descOp() {
 		}
 		if byte(d.UPIDType()) != v {
 			bad("upid-type")
+		}
+		if v != 0x0d {
+			delete(b.midH, i)
 		}
 		b.kinds["upid-type"] = true
 	case 6:
@@ -513,7 +561,7 @@ func (b *built) descOp() {
 	case 7:
 		var us []scte35.UPID
 		var ms []ref.UPID
-		for k := r.Intn(4); k > 0; k-- {
+		for k := 1 + r.Intn(3); k > 0; k-- {
 			u := scte35.CreateUPID()
 			t, data := byte(1+r.Intn(12)), r.Bytes(r.Intn(12))
 			u.SetUPIDType(scte35.SegUPIDType(t))
@@ -538,6 +586,7 @@ func (b *built) descOp() {
 					}
 				}
 			}
+			b.midH[i] = got
 			b.kinds["mid"] = true
 		} else if d.MID() != nil {
 			bad("mid-while-not-mid")
@@ -655,6 +704,7 @@ func (b *built) descOp() {
 		if len(got) != len(ms) {
 			bad("components")
 		}
+		b.compH[i] = got
 		b.kinds["components"] = true
 	}
 	b.kinds["descriptor"] = true
@@ -954,6 +1004,8 @@ func run(c *mon.Ctx) {
 	c.Assume("API gaps: cw_index, encryption_algorithm, foreign descriptors and splice_insert component lists cannot be set through the API and are covered by (a) only. Domain restrictions (DESIGN section 3): SetHasSubSegments(true) only on types 0x34/0x36; device restrictions in 0..3; when a command stores a time that it does not encode, pts_adjustment is masked in the byte comparison; delivery sub-flags, durations, components and sub-segment numbers are compared after decoding only where their governing flag makes them present")
 	c.Floor("reencode.foreign_after_segmentation", 50)
 	c.Floor("large.sections", 20)
+	c.Floor("handle.component_edit", 100)
+	c.Floor("handle.mid_edit", 40)
 	c.Stream("reencode", c.N(30000, 15000000), func(i int, r *gen.Rand) { reencode(c, r) })
 	c.Stream("built", c.N(20000, 10000000), func(i int, r *gen.Rand) { builtFrom(c, r) })
 	c.Stream("histories", c.N(20000, 10000000), func(i int, r *gen.Rand) { history(c, r) })
